@@ -730,7 +730,12 @@ Again:
 
 	case recordTypeHandshake:
 		// TODO(rsc): Should at least pick off connection close.
-		if typ != want && !(c.isClient && c.config.Renegotiation != RenegotiateNever) {
+		// A handshake record where something else is expected is only acceptable as the start of a
+		// renegotiation, i.e. when the caller is Read (want == recordTypeApplicationData) on a client
+		// that allows it. In particular it is never acceptable in place of the ChangeCipherSpec that
+		// readFinished waits for: otherwise a peer could skip ChangeCipherSpec and send its Finished
+		// in the clear, and the handshake would complete with the read side unprotected.
+		if typ != want && (want != recordTypeApplicationData || !(c.isClient && c.config.Renegotiation != RenegotiateNever)) {
 			return c.in.setErrorLocked(c.sendAlert(alertNoRenegotiation))
 		}
 		c.hand.Write(data)
